@@ -1,0 +1,15 @@
+//go:build verif
+
+package filter
+
+import (
+	"github.com/AdguardTeam/AdGuardDNS/internal/dnsmsg"
+	"github.com/AdguardTeam/AdGuardDNS/internal/filter/internal"
+)
+
+// VerifC12CacheKey exposes the result-cache key of the rule-list, blocked
+// service, safe-search and hash-prefix filters to the verification harness,
+// widened to 64 bits whatever the width of the key type is.
+func VerifC12CacheKey(host string, qt dnsmsg.RRType, cl dnsmsg.Class, isAns bool) (k uint64) {
+	return uint64(internal.NewCacheKey(host, qt, cl, isAns))
+}
